@@ -400,7 +400,9 @@ PROPS["C14"] = dict(
     kani=[dict(harness="c19_needs_transfer_is_quick_check", repo_fn="src/bin/copia/plan.rs needs_transfer", desc="needs_transfer(src, dst) == (dst absent or size differs or whole-second mtime differs), all inputs")],
     twins=[dict(name="second_run_noop", repo_fn="src/bin/copia/incremental.rs run_local/run_remote (second run)", quick=1, thorough=1, needs_cli=True,
                 contract="`copia sync -r` on the real binary in all three directions (ssh stand-in), source mtimes with a sub-second part, the epoch itself and a far-future value: after the first run every destination file has the source's whole-second mtime; the same command again exits 0, plans nothing, and changes no byte and no mtime on either side",
-                bounded="the two-run statement, the push direction (remote `touch -d @t`) and the remote listing (`find -printf %T@`) have no contract: this run stands in. Bound: one 5-file tree per direction, four mtime shapes")],
+                bounded="the two-run statement, the push direction (remote `touch -d @t`) and the remote listing (`find -printf %T@`) have no contract: this run stands in. Bound: one 8-file tree per direction (incl. names ending in white space), five mtime shapes"),
+           dict(name="parse_remote_meta_output", repo_fn="src/bin/copia/meta.rs parse_remote_meta_output", quick=2, thorough=60,
+                contract="the remote listing parser returns, for every well-formed `size TAB mtime[.frac] TAB ./path NUL` record, exactly (path, size, whole-second mtime) - checked against an independent reference on generated listings")],
     fallback_searches=["second_run"],
     clauses={
         "needs_transfer / build_plan (unit plan, Kani)": "a file is planned for transfer exactly when it is not excluded and is absent from the destination or differs in size or whole-second mtime (the property's second sentence; shared with C19)",
